@@ -107,8 +107,59 @@ def classify(j):
     f["renders_method_hidden_by_field"] = bool(got & fields)
     f["embedding_height"] = height(j["tree"])
     f["compiled"] = j["compiled"]
-    f["methods_involved"] = sorted(set(dup + lost) | (got - gms) | set(several) | (got & fields))
+    # a method Go promotes from exactly one embedded field (visible under the options) that is not rendered
+    missing = set()
+    if j["emb"]:
+        for n in gms - got - own:
+            if (j["priv"] or n[:1].isupper()) and sum(1 for d in min_depths(j["tree"], n) if d) == 1:
+                missing.add(n)
+    f["promoted_method_not_rendered"] = bool(missing)
+    shared = shared_iface_names(j["tree"])
+    f["missing_method_shared_by_embedded_interfaces"] = bool(missing & shared)
+    f["method_rendered_twice"] = len(got) != len(j["obs"])
+    als = [i["Alias"] for i in j.get("imports") or []]
+    f["duplicate_import_alias"] = len(set(als)) != len(als)
+    f["import_alias_equals_package_level_name"] = bool(set(als) & set(j.get("locals") or []))
+    # an active import (not one of the file's own specs) whose name is bound already: by a spec of the
+    # file for another path, by a package-level declaration, or by another active import
+    spec_names = {}
+    for sp in j.get("specs") or []:
+        spec_names[sp["path"]] = sp.get("rename") or (j.get("pkg_imports") or {}).get(sp["path"]) or sp["path"].rsplit("/", 1)[-1]
+    taken = False
+    for i in j.get("imports") or []:
+        if i["Path"] in spec_names:
+            continue
+        others = [n for p_, n in spec_names.items() if p_ != i["Path"]]
+        others += [k["Alias"] for k in j.get("imports") or [] if k["Path"] != i["Path"]]
+        taken = taken or i["Alias"] in others or i["Alias"] in (j.get("locals") or [])
+    f["on_demand_import_takes_bound_name"] = taken
+    f["panicked"] = bool(j.get("panic"))
+    if j.get("panic"):
+        f["panic_in"] = j.get("panic_in", "?")
+        f["nil_dereference"] = "nil pointer" in j["panic"]
+        f["embedded_type_of_unloaded_package"] = "embedded_type_of_unloaded_package" in (j.get("notes") or [])
+        f["embeds_predeclared_type"] = "embeds_predeclared_type" in (j.get("notes") or [])
+    f["methods_involved"] = sorted(set(dup + lost) | (got - gms) | set(several) | (got & fields) | missing)
     return f
+
+
+def iface_decl_names(it):
+    """names declared below an interface declaration, with repetitions"""
+    out = [m["name"] for m in it.get("explicit") or []]
+    for e in it.get("emb") or []:
+        out += iface_decl_names(e)
+    return out
+
+
+def shared_iface_names(tree):
+    """names that some interface node of the tree inherits from two or more of its parts"""
+    out = set()
+    if tree.get("iface"):
+        ns = iface_decl_names(tree["iface"])
+        out |= {n for n in ns if ns.count(n) > 1}
+    for e in tree.get("emb") or []:
+        out |= shared_iface_names(e)
+    return out
 
 
 def reduce_desc(j, keep):
@@ -159,7 +210,7 @@ def rename_self(desc, old, new):
 def view(j):
     """what goes into a replay file / evidence sample: the case without the bulky parts"""
     v = {k: j[k] for k in ("kind", "prog", "target", "priv", "emb", "obs", "imports", "go_method_set",
-                           "compiled", "rendered") if k in j}
+                           "compiled", "rendered", "panic", "panic_in") if k in j}
     if j.get("build_errors"):
         v["build_errors"] = j["build_errors"]
     if j.get("notes"):
@@ -257,7 +308,8 @@ def shape_coverage(jsons):
     keys = ["variadic_named_renamed_import", "map_slice_ptr_generic_sibling_args", "dir_differs_from_package",
             "unnamed_context_not_first", "func_param_multiple_results", "array_constant_length",
             "user_names_equal_generated_everywhere", "same_name_under_three_fields_shallowest_unique",
-            "single_embed_field_named_like_embedded_method"]
+            "single_embed_field_named_like_embedded_method", "embedded_interface_union_with_shared_method",
+            "embedded_interface_union_two_levels_deep"]
     out = {k: 0 for k in keys}
     for j in jsons:
         found = set()
@@ -269,8 +321,52 @@ def shape_coverage(jsons):
                     found |= {x for x in method_shapes(m) if x == "array_constant_length"}
         if j["emb"] and field_hides_method(j["tree"]):
             found.add("single_embed_field_named_like_embedded_method")
+        if j["emb"] and any(e.get("iface") and shared_iface_names(e) for e in j["tree"].get("emb") or []):
+            found.add("embedded_interface_union_with_shared_method")
+        if j["emb"] and any(not e.get("iface") and shared_iface_names(e) for e in j["tree"].get("emb") or []):
+            found.add("embedded_interface_union_two_levels_deep")
         if j["emb"] and same_name_many_fields(j["tree"]):
             found.add("same_name_under_three_fields_shallowest_unique")
         for k in found:
             out[k] += 1
     return out
+
+
+def add_own_findings(ctx, verif_dir):
+    """known_findings.json (the merged file, shared) is rebuilt by the coordinator; entries of our own
+    fragment known_findings.d/C19.json that are not in it yet are added to the run's list"""
+    p = os.path.join(verif_dir, "known_findings.d", "C19.json")
+    if not os.path.isfile(p):
+        return
+    have = {f.get("id") for f in ctx.findings if f.get("property") == "C19"}
+    for f in json.load(open(p)).get("findings", []):
+        if f.get("id") not in have:
+            ctx.findings.append(f)
+
+
+def is_known(ctx, feats):
+    """would ctx.report file these features under an open known finding? (same rule as vlib)"""
+    for f in ctx.findings:
+        if f.get("property") != "C19" or f.get("status") != "open":
+            continue
+        mt = f.get("match", {})
+        if mt and all(feats.get(k) == v for k, v in mt.items()):
+            return True
+    return False
+
+
+IDENT = re.compile(r"^[^\W\d]\w*$")
+
+
+def ood_reason(j):
+    """why a case is outside the quantifier (python mirror of IFaceJudge.in_domain, for the evidence)"""
+    if height(j["tree"]) > 2:
+        return "embedding deeper than two levels"
+    if not all(basic_ok(m) for m in all_methods(j["tree"])):
+        return "type outside the listed constructors"
+    names = []
+    for s in j.get("specs") or []:
+        names.append(s.get("rename") or (j.get("pkg_imports") or {}).get(s["path"]) or s["path"].rsplit("/", 1)[-1])
+    if len(set(names)) != len(names) or set(names) & set(j.get("locals") or []) or set(names) & {"_", "."}:
+        return "import specs of the file do not bind distinct fresh names"
+    return "parameter name that is not an identifier, or other"
